@@ -6,12 +6,18 @@ from .schedops import *
 from . import schedops as SO
 from . import C10 as _C10
 PROPERTY = 'C11'
-MIR = SO.MIR + [('solver', 'on')]
+MIR = SO.MIR + [('solver', 'on')] + [(c, 'off') for c in ('rapid_time', 'model', 'solution', 'solver')]
 ASSUMPTIONS = _C10.ASSUMPTIONS + ['candidates are generated with the arguments RSSchedParallelNeighborhood uses (maintenance slot x vehicle; provider segment x receiver incl. the whole-tour segment ending at the end depot; own-type trip x vehicle; tour node x vehicle); the rayon iteration over them is not executed',
                                   'base schedules are produced by explicit scripts of real modifications (not by arbitrary walks)']
 BOUNDS = {'quick': '5 base schedules (one vehicle; two vehicles [lean instance: fixed depot capacity, no formation limits]; vehicle + maintenance vehicle; dummy + vehicle; two-trip dummy + vehicle [lean instance, path exchanges with the dummy as provider only]) on the 1-type instance of C10; every candidate of each, except that the maintenance-spawning candidates are taken from the first and third base only',
           'thorough': '8 base schedules incl. three vehicles and the two-type instance'}
-OUTSIDE = 'arbitrary walks through the neighbourhood (only the listed base schedules); the parallel enumeration itself'
-REQUIRED_COVERS = {'quick': ['op:swap_path_exchange:ok', 'op:swap_spawn_maint:ok', 'op:swap_hitch:ok', 'op:swap_remove_single:ok']}
+OUTSIDE = 'arbitrary walks through the neighbourhood (only the listed base schedules); rayon\'s parallel scheduling (the enumeration is executed with sequential iterator models)'
+REQUIRED_COVERS = {'quick': ['op:swap_path_exchange:ok', 'op:swap_spawn_maint:ok', 'op:swap_hitch:ok', 'op:swap_remove_single:ok', 'generated:swap_path_exchange', 'generated:swap_spawn_maint', 'generated:swap_hitch', 'generated:swap_remove_single']}
 REQUIRED_COVERS['thorough'] = REQUIRED_COVERS['quick']
-def jobs(tier, seed): return SO.swap_jobs(tier, seed, ['C11'])
+from . import C11nb
+from .C11nb import job_neighborhood
+def jobs(tier, seed): return SO.swap_jobs(tier, seed, ['C11']) + C11nb.jobs(tier)
+
+def confirm(c):
+    if c.get('job_func') == 'job_neighborhood': return C11nb.confirm(c)
+    return SO.confirm(c)
